@@ -3,6 +3,7 @@ C16 — the compression hint decides how a content is stored.
 -/
 import JubakoModel.Model.ContentSpec
 import JubakoModel.Lemmas.Creator
+import JubakoModel.Lemmas.Verbatim
 
 namespace Jubako
 
@@ -111,5 +112,77 @@ theorem c16_dedup (key : Bytes → Bytes) (st) (d : Bytes) (h : DedupInv key st)
     · rename_i hnone
       have := List.find?_eq_none.mp hnone e he
       simp [hk] at this
+
+
+/-! ### File level
+
+`StoredVerbatim f i d` / `StoredCompressed codec f i d` (Lemmas/Verbatim.lean) describe where the
+reader's own pointer chain leads for content `i` of the file `f` (`ReaderLocates`: pack header →
+content-info entry `i` → cluster pointer → cluster tail): a cluster whose tail says *uncompressed*
+(resp. *compressed with the pack's algorithm byte*) and in which the bytes `d` sit contiguously at
+the blob offsets recorded in that tail — in the file itself (verbatim), resp. in the decompression
+of the stored payload.  The two are mutually exclusive (`not_verbatim_and_compressed`) and each
+implies what `contentGet` returns. -/
+
+/-- **(A) An item inserted uncompressed is stored verbatim in an uncompressed cluster**, for every
+    insertion sequence and every arrival order of the clusters at the writer.
+
+    Hypotheses: those of `contentGet_contentPackWrite`, without the soundness of the codec (nothing
+    is decompressed). -/
+theorem c16_file_verbatim (H : Bytes → Bytes) (codec : Codec)
+    (hbyte : codec.byte ≤ 3) (m : ContentPackMeta) (hm : m.WF)
+    (items : List Item) (arrival : List Cluster)
+    (hp : arrival.Perm ((Creator.init.addAll items).finalize).1)
+    (hcomp : codec.byte = 0 → ∀ it ∈ items, it.comp = false)
+    (hcount : items.length < 2 ^ 32)
+    (hncl : arrival.length ≤ 2 ^ 20)
+    (hdata : totalSize items < 2 ^ 64)
+    (hsize : (contentPackWrite H codec m arrival ((Creator.init.addAll items).finalize).2).length
+      < 2 ^ 48)
+    (i : Nat) (hi : i < items.length) (hraw : (items[i]).comp = false) :
+    StoredVerbatim (contentPackWrite H codec m arrival ((Creator.init.addAll items).finalize).2) i
+      (items[i]).data :=
+  verbatim_in_file H codec hbyte m hm items arrival hp hcomp hcount hncl hdata hsize i hi hraw
+
+/-- **(B) An item inserted compressed is stored in a cluster compressed with the algorithm of the
+    pack.**  Hypotheses: exactly those of `contentGet_contentPackWrite`.  That the pack compresses
+    (`codec.byte ≠ 0`) is a conclusion: it follows from `hcomp`. -/
+theorem c16_file_compressed (H : Bytes → Bytes) (codec : Codec) (hcodec : codec.Sound)
+    (hbyte : codec.byte ≤ 3) (m : ContentPackMeta) (hm : m.WF)
+    (items : List Item) (arrival : List Cluster)
+    (hp : arrival.Perm ((Creator.init.addAll items).finalize).1)
+    (hcomp : codec.byte = 0 → ∀ it ∈ items, it.comp = false)
+    (hcount : items.length < 2 ^ 32)
+    (hncl : arrival.length ≤ 2 ^ 20)
+    (hdata : totalSize items < 2 ^ 64)
+    (hsize : (contentPackWrite H codec m arrival ((Creator.init.addAll items).finalize).2).length
+      < 2 ^ 48)
+    (i : Nat) (hi : i < items.length) (hc : (items[i]).comp = true) :
+    StoredCompressed codec
+      (contentPackWrite H codec m arrival ((Creator.init.addAll items).finalize).2) i
+      (items[i]).data :=
+  compressed_in_file H codec hcodec hbyte m hm items arrival hp hcomp hcount hncl hdata hsize i hi hc
+
+/-- **(C) In a pack created without compression every content is stored verbatim.** -/
+theorem c16_file_no_compression_verbatim (H : Bytes → Bytes) (codec : Codec)
+    (hbyte : codec.byte ≤ 3) (m : ContentPackMeta) (hm : m.WF)
+    (items : List Item) (arrival : List Cluster)
+    (hp : arrival.Perm ((Creator.init.addAll items).finalize).1)
+    (hcomp : codec.byte = 0 → ∀ it ∈ items, it.comp = false)
+    (hcount : items.length < 2 ^ 32)
+    (hncl : arrival.length ≤ 2 ^ 20)
+    (hdata : totalSize items < 2 ^ 64)
+    (hsize : (contentPackWrite H codec m arrival ((Creator.init.addAll items).finalize).2).length
+      < 2 ^ 48)
+    (hnone : codec.byte = 0) (i : Nat) (hi : i < items.length) :
+    StoredVerbatim (contentPackWrite H codec m arrival ((Creator.init.addAll items).finalize).2) i
+      (items[i]).data :=
+  verbatim_of_no_compression H codec hbyte m hm items arrival hp hcomp hcount hncl hdata hsize hnone i hi
+
+
+/-- non-vacuity (raw, compressed and empty contents of the example pack of Lemmas/ContentFile) -/
+example := @ContentFileExample.item0_verbatim
+example := @ContentFileExample.item1_compressed
+example := @ContentFileExample.item1_not_verbatim
 
 end Jubako
